@@ -172,8 +172,11 @@ func fsmPairedExplore(c *Ctx, n, t int, maxStates int) (states, pairs int) {
 		}
 		return p
 	}
-	longPairs := 0
-	defer func() { c.Add("long_lived_vs_restored_comparisons", longPairs) }()
+	longPairs, afterRejected := 0, 0
+	defer func() {
+		c.Add("long_lived_vs_restored_comparisons", longPairs)
+		c.Add("comparisons_after_a_rejected_event", afterRejected)
+	}()
 	for len(queue) > 0 {
 		s := queue[0]
 		queue = queue[1:]
@@ -183,6 +186,39 @@ func fsmPairedExplore(c *Ctx, n, t int, maxStates int) (states, pairs int) {
 		if _, err := safeFromDump(s.dump); err != nil {
 			c.Violate("C19/reachable-state-cannot-be-restored:"+s.name, fmt.Sprintf("FromDump fails for reachable state %s: %v", s.name, err), map[string]interface{}{"n": n, "t": t, "path": path(s)})
 			continue
+		}
+		// (r) an instance that lived through a REJECTED event must go on like one restored from the dump (a
+		// rejection is not persisted by anybody): for a fixed fifth (quick) / half (thorough) of the rejected events r, and every
+		// accepted event e of this state, "r then e" on one instance is compared with e on a restored one
+		{
+			var acc, rej []*typed
+			outOf := map[*typed]doOut{}
+			for i := range alphabet {
+				e := &alphabet[i]
+				inst, _ := safeFromDump(s.dump)
+				o := safeDo(inst, e.event, e.req)
+				outOf[e] = o
+				if o.OK {
+					acc = append(acc, e)
+				} else if oracle.HashN(s.name+"|rej|"+e.label, c.Pick(5, 2)) == 0 {
+					rej = append(rej, e)
+				}
+			}
+			for _, r := range rej {
+				for _, e := range acc {
+					inst, err := safeFromDump(s.dump)
+					if err != nil {
+						continue
+					}
+					_ = safeDo(inst, r.event, r.req)
+					got := safeDo(inst, e.event, e.req)
+					want := outOf[e]
+					afterRejected++
+					if got.OK != want.OK || got.State != want.State || got.Data != want.Data || canonDump(got.Dump) != canonDump(want.Dump) {
+						c.Violate("C19/live-and-restored-differ", fmt.Sprintf("in %s: after the rejected event %s the same instance answers %s with (ok=%v,state=%s), a round restored from the dump with (ok=%v,state=%s)", s.name, r.label, e.label, got.OK, got.State, want.OK, want.State), map[string]interface{}{"n": n, "t": t, "path": path(s), "rejected_event": r.label, "event": e.label})
+					}
+				}
+			}
 		}
 		for i := range alphabet {
 			e := &alphabet[i]
@@ -265,7 +301,7 @@ func fsmPairedExplore(c *Ctx, n, t int, maxStates int) (states, pairs int) {
 }
 
 func checkC19(c *Ctx) {
-	c.Rule = "two explorations. (1) state_machines driven directly (Create/Do/Dump/FromDump) breadth-first over the full event alphabet incl. the hand-over events and two signing batches: for every reachable state and every event, continuing on the live instance is compared with continuing on an instance restored from the dump (acceptance, next state, response JSON, resulting dump); every reachable state must restore. (2) the C05 node-level exploration and the C06 signing exploration: every reachable persisted round must restore and the node's round listing must succeed on a store containing it. In (1) a second comparison keeps ONE instance alive through the whole path since the last hand-over (every accepted event, an eighth of the others). distinct = distinct reachable states judged"
+	c.Rule = "two explorations. (1) state_machines driven directly (Create/Do/Dump/FromDump) breadth-first over the full event alphabet incl. the hand-over events and two signing batches: for every reachable state and every event, continuing on the live instance is compared with continuing on an instance restored from the dump (acceptance, next state, response JSON, resulting dump); every reachable state must restore. (2) the C05 node-level exploration and the C06 signing exploration: every reachable persisted round must restore and the node's round listing must succeed on a store containing it. In (1) a second comparison keeps ONE instance alive through the whole path since the last hand-over (every accepted event, an eighth of the others). (r) an instance that lived through a rejected event must answer every accepted event like a restored one. distinct = distinct reachable states judged"
 	c.Assumptions = []string{"hand-over states (proposal collected, master key collected) are excluded from the live-vs-restored comparison only: the machine that reached them cannot continue by construction and the node always restores there", "responses built by iterating Go maps are compared as multisets"}
 	c.Exhaustive = true
 	type cfg struct{ n, t int }
@@ -329,6 +365,7 @@ func c19RoundIDs(c *Ctx) {
 	defer w.Close()
 	nd := w.Nodes[0]
 	base := fmt.Sprintf("%064x", c.Seed*0x9E3779B97F4A7C15+11)
+	base = "c0de" + base[4:] // at least one letter, so that the upper-cased variant is another string
 	ids := []string{base, base + " ", " " + base, "\t" + base + "\n", strings.ToUpper(base), base[:50], base + "0"}
 	t0 := now()
 	trace := func(id string) []string {
